@@ -2,6 +2,7 @@ package fam
 
 import (
 	"bufio"
+	"context"
 	"encoding/json"
 	"flag"
 	"fmt"
@@ -10,9 +11,16 @@ import (
 	"reflect"
 	"sort"
 
+	formula "github.com/aundis/formula"
+
 	"verif/harness/proj"
 	"verif/harness/tlaval"
 )
+
+var builtinNames = []string{"now", "toDay", "date", "addDate", "year", "month", "day", "hour", "minute", "second", "millSecond", "weekDay", "timeFormat",
+	"useTimezone", "abs", "ceil", "exp", "floor", "ln", "log", "max", "min", "round", "roundBank", "roundCash", "sqrt", "finite", "startWith", "endWith",
+	"contains", "find", "includes", "left", "right", "len", "lower", "upper", "lpad", "rpad", "mid", "replace", "trim", "regexp", "mapToArr", "join",
+	"toString", "toInt", "toFloat"}
 
 func init() {
 	Recorders["runner"] = recordRunner
@@ -21,6 +29,17 @@ func init() {
 	for _, n := range []string{"rec", "id", "fail", "failv", "recs", "add2", "cat"} {
 		f, _ := h.Func(n)
 		proj.FuncNames[reflect.ValueOf(f).Pointer()] = n
+	}
+	// builtins project by name too: a bare builtin name evaluates to the function itself
+	for _, n := range builtinNames {
+		src, err := formula.ParseSourceCode([]byte(n))
+		if err != nil {
+			continue
+		}
+		v, err := formula.NewRunner().Resolve(context.Background(), src.Expression)
+		if err == nil && v != nil && reflect.TypeOf(v).Kind() == reflect.Func {
+			proj.FuncNames[reflect.ValueOf(v).Pointer()] = n
+		}
 	}
 }
 
